@@ -169,3 +169,31 @@ func TestFindingRecursiveDeleteLinked(t *testing.T) {
 	vlib.Finding(t, "C20-recursive-delete-leaks-linked-chunks", leaked,
 		p.detail(fmt.Sprintf("DeleteEntry(/z,isDeleteData=true,isRecursive=true) -> %v; entries left: %d; handed to deletion {%s}; f1 is unreferenced and was never handed to deletion: %v", err, len(nodes), fdrv.ShortList(obs), leaked)))
 }
+
+// A directory rename that merges into an existing directory lists the source
+// children first; a hard-linked child listed with counter N is later re-created
+// with N+1 although an earlier child of the same move replaced another name of
+// the same hard link in the meantime.
+func TestFindingDirRenameStaleCounter(t *testing.T) {
+	p := newProbe()
+	defer p.cleanup()
+	f1, f2 := p.e.DataChunk(0, 10, 1), p.e.DataChunk(0, 10, 2)
+	p.put("/x/a", f2)
+	p.link("/x/a", "/x/y/c")
+	p.put("/x/y/a", f1)
+	err := p.e.Rename(p.root+"/x", "y", p.root, "x")
+	c, _ := p.e.Lookup(p.root + "/x/c")
+	p.e.Drain()
+	err2 := p.e.Delete(p.root+"/x", "c", true, false, false) // the only name left of the hard link
+	obs := p.e.Drain()
+	nodes, _ := p.e.Walk(p.root)
+	refs := p.e.Refs(nodes)
+	leaked := refs[fdrv.Canon(f2.FileId)] == 0
+	for _, f := range obs {
+		if f == fdrv.Canon(f2.FileId) {
+			leaked = false
+		}
+	}
+	vlib.Finding(t, "C20-dir-rename-merge-stale-hardlink-counter", leaked,
+		p.detail(fmt.Sprintf("rename /x/y /x -> %v (moves /x/y/a over /x/a, then /x/y/c to /x/c); /x/c shows HardLinkCounter=%d with one live name; DeleteEntry(/x/c,isDeleteData=true) -> %v handed {%s} to deletion; f2 unreferenced and never handed to deletion: %v", err, c.GetHardLinkCounter(), err2, fdrv.ShortList(obs), leaked)))
+}
